@@ -84,6 +84,9 @@ def run_case(case):
         except ValueError:
             continue
         subs.append((sub, sparse, sfeat))
+        if case.get("query_between_adds") and rng.random() < 0.15:
+            from amaranth.hdl import Fragment
+            Fragment.get(dec, None)   # bring-up elaboration of a partly populated decoder
         if case.get("query_between_adds") and rng.random() < 0.5:
             # read-only queries on a partly populated decoder must not change what is built later
             mm_ = dec.bus.memory_map
